@@ -469,6 +469,82 @@ theorem remembered_state_object_counterexample :
    { user := "u3", bot := "bad", intent := .free, actFault := false, retrFault := false, vin := fun _ _ => .accept, vout := fun _ _ => .reject },
    rfl, fun _ _ => rfl, fun _ _ => rfl, fun _ => rfl, by decide, by decide, by decide⟩
 
+/-! #### the caller keeps a live State object (open finding `v2-live-state-object-after-propagated-failure`) -/
+
+/-- The code as it is does NOT have the property when the caller keeps a LIVE State object (the object is handed to
+    every call — `generate_async(state=<State>)`, `process_events(events, state)`): the call mutates the caller's
+    object; a call that fails inside the output rails (the rail's LLM call raises `LLMCallException`) leaves it with
+    `$output_rails_in_progress = True`, and the next call on it utters and returns the LLM text "bad" although its
+    output rail, which rejects it, is never invoked — with the repaired guardrails.co (`flagReset`) and well-formed
+    rails.  (Kernel-evaluated; `harness/corpus/C02/live_object_after_propagated_failure.json` is the same
+    conversation on the real code; open finding `v2-live-state-object-after-propagated-failure`.) -/
+theorem live_object_as_is_counterexample :
+    ∃ (cfg : Cfg) (t1 t2 t3 : Turn), cfg.flagReset = true ∧ WF cfg .input ∧ WF cfg .output ∧
+      (∀ x, t3.vout 0 x = .reject) ∧
+      let outs := convLiveV2 false cfg initV2 [(t1, {}), (t2, {}), (t3, {})]
+      outs.map (fun o => (o.2.1.raised, o.2.1.texts)) = [(false, ["b1"]), (true, []), (false, ["bad"])]
+      ∧ (outs.map (fun o => railCalls .output o.1)).getLast? = some []
+      ∧ (outs.map (fun o => o.2.2.orip)) = [false, true, true] :=
+  ⟨{ inRails := [], outRails := [0], dialog := false, exc := false, stops := fun _ _ => true, flagReset := true },
+   { user := "u1", bot := "b1", intent := .free, actFault := false, retrFault := false, vin := fun _ _ => .accept, vout := fun _ _ => .accept },
+   { user := "u2", bot := "b2", intent := .free, actFault := false, retrFault := false, vin := fun _ _ => .accept, vout := fun _ _ => .escape },
+   { user := "u3", bot := "bad", intent := .free, actFault := false, retrFault := false, vin := fun _ _ => .accept, vout := fun _ _ => .reject },
+   rfl, fun _ _ => rfl, fun _ _ => rfl, fun _ => rfl, by decide, by decide, by decide⟩
+
+/-- `live_object_checked_partial`: with a live object the property holds for the calls made while no call has
+    failed inside the output rails, i.e. as long as the object the caller holds has `$output_rails_in_progress`
+    unset (full statement — "for every call of every conversation" — is false of the code: see the counterexample). -/
+theorem live_object_checked_partial (cfg : Cfg) (obj : HistV2) (t : Turn) (f : Fault) (hi : WF cfg .input) (ho : WF cfg .output)
+    (hor : obj.orip = false) (hc : (runObjV2 cfg obj t f).2.1.raised = false)
+    (x : Text) (hx : Step.utter x ∈ (runObjV2 cfg obj t f).1) :
+    x = refusal ∨ (x = t.bot ∧ railCalls .output (runObjV2 cfg obj t f).1 = gate (n2 t.vout) cfg.outRails t.bot
+      ∧ (gate (n2 t.vout) cfg.outRails t.bot).map Prod.fst = cfg.outRails) := by
+  have hrun : (runObjV2 cfg obj t f).1 = (turnV2 cfg obj t).1 := by
+    unfold runObjV2 at hc ⊢
+    cases hcut : f.cut (turnV2 cfg obj t).1 with
+    | some pre => simp [hcut, raisedReply] at hc
+    | none =>
+      simp only [hcut] at hc ⊢
+      by_cases hr : (turnV2 cfg obj t).2.1.raised = true
+      · simp [hr] at hc
+      · simp [hr]
+  rw [hrun] at hx ⊢
+  rcases output_all_rails_v2 cfg obj t hi ho hor x hx with h1 | ⟨a, b, c, _⟩
+  · exact Or.inl h1
+  · exact Or.inr ⟨a, b, c⟩
+
+example : (⟨false, false⟩ : HistV2).orip = false := rfl
+
+/-- `live_object_every_call_checked` (2.x, REPAIRED guardrails.co: a new user message resets
+    `$output_rails_in_progress`, `fixes/C02-v2-output-rails-flag-new-user-message.diff`): also when the caller keeps one
+    live State object, in every conversation — any calls failing at any await point, whatever the object looked like
+    before — whatever a completed call utters is the refusal or the LLM text of that call after all configured output
+    rails ran on it, in order. -/
+theorem live_object_every_call_checked_v2 (cfg : Cfg) (hi : WF cfg .input) (ho : WF cfg .output) :
+    ∀ (cs : List (Turn × Fault)) (obj : HistV2),
+      ∀ p ∈ List.zip cs (convLiveV2 true cfg obj cs), p.2.2.1.raised = false → ∀ x, Step.utter x ∈ p.2.1 →
+        x = refusal ∨ (x = p.1.1.bot ∧ railCalls .output p.2.1 = gate (n2 p.1.1.vout) cfg.outRails p.1.1.bot
+          ∧ (gate (n2 p.1.1.vout) cfg.outRails p.1.1.bot).map Prod.fst = cfg.outRails)
+  | [], _ => by simp [convLiveV2]
+  | (t, f) :: cs, obj => by
+    intro p hp
+    simp only [convLiveV2, List.zip_cons_cons, List.mem_cons] at hp
+    rcases hp with rfl | hp
+    · intro hc x hx
+      exact live_object_checked_partial cfg (entryV2 true obj) t f hi ho (by simp [entryV2]) hc x hx
+    · exact live_object_every_call_checked_v2 cfg hi ho cs _ p hp
+
+/-- non-vacuity + the repaired behaviour on the counterexample's conversation: the third call utters the refusal -/
+example :
+    let cfg : Cfg := { inRails := [], outRails := [0], dialog := false, exc := false, stops := fun _ _ => true, flagReset := true }
+    let t1 : Turn := { user := "u1", bot := "b1", intent := .free, actFault := false, retrFault := false, vin := fun _ _ => .accept, vout := fun _ _ => .accept }
+    let t2 : Turn := { user := "u2", bot := "b2", intent := .free, actFault := false, retrFault := false, vin := fun _ _ => .accept, vout := fun _ _ => .escape }
+    let t3 : Turn := { user := "u3", bot := "bad", intent := .free, actFault := false, retrFault := false, vin := fun _ _ => .accept, vout := fun _ _ => .reject }
+    WF cfg .input ∧ WF cfg .output ∧
+    (convLiveV2 true cfg initV2 [(t1, {}), (t2, {}), (t3, {})]).map (fun o => (o.2.1.raised, o.2.1.texts))
+      = [(false, ["b1"]), (true, []), (false, [refusal])] :=
+  ⟨fun _ _ => rfl, fun _ _ => rfl, by decide⟩
+
 end Calls
 
 end NemoVerif.C02
